@@ -72,7 +72,7 @@ class C04(TraceCheck):
     rule = ("histories of region assignments on a real FSArray: shapes 0..3 x 0..4 (constructor formatting none / bg), forms "
             "a[r0:r1, c0:c1] = block, a[r, c] = [x], a[r0:r1] = block, regions inside, straddling and beyond the height "
             "(r in 0..rows+2, c in 0..cols) and hanging over the right edge (column stops up to 2*cols+2), bounds also written as negative numbers and omitted (None), blocks with the right and wrong number of rows, rows shorter/equal/longer than the "
-            "region, empty rows, given as list of str/FmtStr or as FSArray; after every step the full row list is recorded; "
+            "region, empty rows, given as list of str/FmtStr, as FSArray or as the target array itself; after every step the full row list is recorded; "
             "region and row reads are interleaved; fsarray(strings, width) construction. Sources: TLC-generated behaviours "
             "(MC_FSArray GenSpec) + all single assignments on 1x2/2x2/2x3 arrays pre-filled two ways + seeded random "
             "histories. distinct_nontrivial = distinct (shape, region, block row lengths, outcome) assignments")
@@ -153,6 +153,17 @@ class C04(TraceCheck):
                                     {"k": "assign", "r0": r0, "r1": r0 + 1, "c0": c0, "c1": c1, "block": b,
                                      "bk": "fsarray" if (c0 + c1) % 5 == 0 else "list", "form": "slice2"},
                                     {"k": "read", "r0": 0, "r1": h + 2, "c0": 0, "c1": w + 2}]}
+        # the array pasted into itself: at its top, straddling its last row, below it - with the right and a wrong height
+        for (h, w) in [(1, 2), (2, 3), (2, 2)]:
+            for prefill in ("full", "short"):
+                txt = "p" * w if prefill == "full" else "q" * max(1, w - 1)
+                pre = [{"k": "assign", "r0": 0, "r1": h, "c0": 0, "c1": len(txt), "block": [srow(txt)] * h, "bk": "list", "form": "slice2"}]
+                for r0 in range(0, h + 2):
+                    for nrows in (h, h + 1, max(0, h - 1), 2 * h):
+                        for (c0, c1) in ((0, w), (0, len(txt)), (1, w)):
+                            yield {"h": h, "w": w, "fmt": (r0 + nrows) % 2, "steps": pre + [
+                                {"k": "assign", "r0": r0, "r1": r0 + nrows, "c0": c0, "c1": c1, "block": [], "bk": "self", "form": "slice2"},
+                                {"k": "read", "r0": 0, "r1": 3 * h + 3, "c0": 0, "c1": w}]}
         # neighbouring rows with the same terminal string but different cells (a red 'a' next to a row whose TEXT is the
         # escape-coded rendering of a red 'a'), filled / cleared with [row] * n (one block row object used for both)
         red_a = {"k": "f", "v": [[[97], [2, 0, 0, 0, 0, 0, 0, 0]]]}
@@ -287,7 +298,11 @@ class C04(TraceCheck):
                     for j in range(1, len(block)):
                         if st["block"][j] == st["block"][j - 1]:
                             block[j] = block[j - 1]
-                if st.get("bk") == "fsarray":
+                if st.get("bk") == "self":
+                    # the block is the target array itself (pasting an array into / below itself)
+                    block = a
+                    rec["block"] = [enc.enc_value(r) for r in a.rows]
+                elif st.get("bk") == "fsarray":
                     try:
                         block = fsarray(block)
                         rec["block"] = [enc.enc_value(r) for r in block]
